@@ -24,7 +24,7 @@ func (v *Verifier) newTr(u *Unit) *tr {
 		info = u.Pkg.TypesInfo
 	}
 	t := &tr{V: v, u: u, pkg: u.Pkg, info: info, vars: map[types.Object]*Var{}, named: map[string]*Var{},
-		counters: map[string]int{}, errSet: map[string]bool{}, rangeColl: map[int]Term{}, loopEntry: map[int]Env{}, params: map[string]Term{}, touched: map[*Var]bool{}}
+		counters: map[string]int{}, errSet: map[string]bool{}, rangeColl: map[int]Term{}, loopEntry: map[int]Env{}, loopHeadEnv: map[int]Env{}, params: map[string]Term{}, touched: map[*Var]bool{}}
 	t.allocTop = t.newVar("allocTop", SInt, nil, true)
 	t.panicking = t.newVar("panicking", SBool, types.Typ[types.Bool], false)
 	t.panicVal = t.newVar("panicval", SInt, nil, false)
